@@ -303,7 +303,7 @@ pub fn c15_random(ctx: &Ctx, rng: &mut Rng, seed: u64, quick: bool) -> History {
                     _ => {}
                 }
             }
-            steps.push(Step::Cli { query: "1 + 1".into(), exact: false, describe: false, env });
+            steps.push(Step::Cli { query: "1 + 1".into(), exact: false, describe: false, env, split: false });
         } else {
             steps.push(Step::Start { session: c15_session(ctx, faults, subset.clone()) });
         }
@@ -949,9 +949,9 @@ pub fn c19_random(ctx: &Ctx, pool: &PhrasePool, rng: &mut Rng, seed: u64) -> His
     }
     // the first call performs whatever recovery the directory needs
     let (q0, e0, _) = queries[0].clone();
-    steps.push(Step::Cli { query: q0, exact: e0, describe: false, env: vec![] });
+    steps.push(Step::Cli { query: q0, exact: e0, describe: false, env: vec![], split: rng.chance(1, 3) });
     for (q, exact, describe) in &queries {
-        steps.push(Step::Cli { query: q.clone(), exact: *exact, describe: *describe, env: vec![] });
+        steps.push(Step::Cli { query: q.clone(), exact: *exact, describe: *describe, env: vec![], split: rng.chance(1, 3) });
     }
     let texts: Vec<String> = queries.iter().map(|q| q.0.clone()).collect();
     steps.push(Step::Start {
